@@ -510,4 +510,55 @@ example : (∀ p len, badCont (memOfBytes [0x61, 0xc3, 0xa9]) p len = false) := 
         rw [this]; decide
     simp [this]
 
+
+/-! ### the runtime oracle is the specification of the theorems
+
+The `SPEC` verdict of `bin/check` is computed by `Driver/Utf8.lean` as
+`specRun limit (clusters (refScan wcwidthSpec _ bs).1) (refScan wcwidthSpec _ bs).2.1 start` on the effective
+bytes `bs` of the input, with an independently written list decoder (`refScan`) and search-free widths
+(`wcwidthSpec`).  These theorems say that this is the same function the theorems above talk about. -/
+
+/-- The oracle's decoder over the effective bytes finds exactly the characters and the ending of the strict
+    scan over memory. -/
+theorem oracle_decoder (mem : Mem) (fuel str : Nat) (len : Option Nat) (bs : List Nat) (cs : List Ch) (t : Tail)
+    (hE : Effective mem str len bs) (hs : scanStrict mem fuel str len = some (cs, t)) :
+    (refScan wcwidthSpec (bs.length + 1) bs).1 = cs ∧ (refScan wcwidthSpec (bs.length + 1) bs).2.1 = t := by
+  have hw : wcwidthSpec = wcwidth := funext (fun c => (wcwidth_eq_spec c).symm)
+  rw [hw]
+  exact refScan_eq_scanStrict mem fuel str len bs cs t hE hs (bs.length + 1) (Nat.lt_succ_self _)
+
+/-- Whenever no offset holds the trigger of the known finding, the value the oracle expects is the value
+    `tickit_utf8_ncountmore` returns (so a `SPEC fail` on such an input is a disagreement with the model). -/
+theorem oracle_expects_model (mem : Mem) (hno : ∀ p len, badCont mem p len = false)
+    (fuel : Nat) (len : Option Nat) (pos : Pos) (L : Option Limit) (bs : List Nat) (cs : List Ch) (t : Tail)
+    (hE : Effective mem pos.bytes (lenSub len pos.bytes) bs)
+    (hs : scanStrict mem fuel pos.bytes (lenSub len pos.bytes) = some (cs, t)) :
+    ∃ hi, ncountmore mem fuel len pos L =
+      .ret ((specRun L (clusters (refScan wcwidthSpec (bs.length + 1) bs).1)
+              (refScan wcwidthSpec (bs.length + 1) bs).2.1 pos).ret pos.bytes)
+           (specRun L (clusters (refScan wcwidthSpec (bs.length + 1) bs).1)
+              (refScan wcwidthSpec (bs.length + 1) bs).2.1 pos).pos hi := by
+  obtain ⟨h1, h2⟩ := oracle_decoder mem fuel _ _ bs cs t hE hs
+  rw [h1, h2]
+  have hsame : ∀ (f s : Nat) (l : Option Nat), scanStrict mem f s l = scan mem f s l := by
+    intro f
+    induction f with
+    | zero => intro s l; rfl
+    | succ f ih =>
+      intro s l
+      rw [scanStrict, scan]
+      have : stepStrict mem s l = stepAt mem s l := by unfold stepStrict; simp [hno s l]
+      rw [this]
+      split <;> simp [ih]
+  rw [hsame] at hs
+  exact ncountmore_eq_spec mem fuel len pos L cs t hs
+
+example : Effective (memOfBytes [0x61, 0xc3, 0xa9]) 0 none [0x61, 0xc3, 0xa9] ∧
+    refScan wcwidthSpec 4 [0x61, 0xc3, 0xa9] = ([⟨1, 0x61, 1⟩, ⟨2, 0xe9, 1⟩], .eof, "") := by
+  refine ⟨⟨?_, Or.inr ⟨by decide +kernel, fun l h => nomatch h⟩⟩, by decide +kernel⟩
+  intro i hi
+  simp only [List.length_cons, List.length_nil] at hi
+  have : i = 0 ∨ i = 1 ∨ i = 2 := by omega
+  rcases this with rfl | rfl | rfl <;> decide +kernel
+
 end Tickit.Props.C07
